@@ -722,6 +722,11 @@ class Interp:
             return self.compare_values(seg, a, b)
         if name in ('core::cmp::Ord::cmp', 'core::cmp::PartialOrd::partial_cmp'):
             a, b = self.deref_all(A[0]), self.deref_all(A[1])
+            if a[0] == b[0] and a[0] in ('key', 'int', 'addr') and a[1] is not None and b[1] is not None:
+                # names and small integers: any fixed total order serves (only consistency matters to a sorted container)
+                r_ = '<' if (str(a[1]) < str(b[1]) if a[0] != 'int' else a[1] < b[1]) else ('=' if a[1] == b[1] else '>')
+                o_ = ('adt', 'core::cmp::Ordering', {'<': 0, '=': 1, '>': 2}[r_], [])
+                return o_ if name.endswith('::cmp') else mk_option(o_)
             if a[0] not in ('ts', 'dur') or b[0] != a[0]:
                 raise Unmodelled('cmp on %s' % a[0])
             r = self.order.cmp(a[1], b[1])
